@@ -124,12 +124,14 @@ CONC = {
 
 # random deeper pipelines (impl -> spec): property -> (quick n, thorough n, ill-formed cold scripts allowed)
 FUZZ = {'C01': (400, 20000, True), 'C02': (400, 20000, False), 'C03': (400, 20000, False), 'C04': (400, 20000, False), 'C05': (400, 20000, True),
-        'C06': (400, 20000, True), 'C07': (400, 20000, True), 'C14': (400, 20000, False), 'C17': (400, 20000, True)}
+        'C06': (400, 20000, True), 'C07': (400, 20000, True), 'C14': (400, 20000, False), 'C17': (400, 20000, True),
+        # long random call sequences (8-24 stimuli) on a subject / a connectable over a hot source
+        'C10': (300, 6000, 'hot'), 'C13': (300, 6000, 'hot')}
 
 
 def fz(prop, tier):
     f = FUZZ.get(prop)
-    return dict(fuzz=(f[0] if tier == 'quick' else f[1]), fuzz_ill=f[2]) if f else {}
+    return dict(fuzz=(f[0] if tier == 'quick' else f[1]), fuzz_ill=(f[2] is True), fuzz_hot=(f[2] == 'hot')) if f else {}
 
 
 def run(prop, tier, seed):
